@@ -225,7 +225,7 @@ def _wb_outcome(ctx, cells, start, wb=None, **kw):
     try:
         out = wb.evaluate(start if '!' in start else 'Sheet1!' + start)
     except Unmodelled as exc:
-        if 'inlining deeper than' in str(exc) or 'budget exceeded' in str(exc):
+        if 'inlining deeper than' in str(exc) or 'budget exceeded' in str(exc) or 'texts longer than' in str(exc):
             return ('unbounded', str(exc)[:100]), wb
         raise
     n = wb.calls('evaluator', 'evaluate')
